@@ -14,26 +14,31 @@ Inductive mode := MDet | MRng (rdraws : list Q) (seldraws : list (Z * Q)).
 
 (* perms: for every leaf handed to SelectF, the ids in the order sort.Slice left them (whales first);
    obs: (row id, kept, SF, quota) for every row *)
-(* compact printing: metric-level fields once per metric ([met]), rows refer to them by index *)
-Inductive met := M (id budget ns group nsw gw mw : Z) (nsa : bool) (fki : list Z).
-Inductive crow := R (id size whale : Z) (single : bool) (mi : nat) (tags : list Z).
+(* compact printing: the metas that occur (of the accounted metrics, of foreign metrics attached to re-accounted rows)
+   are listed once; a row names the metric it is accounted to, its fixed budget and the meta its Item carries (index
+   into the list, None = nil); [storage] = indexes of the metas the meta storage knows *)
+Definition met := meta.
+Definition M (id ns group nsw gw mw : Z) (nsa : bool) (fki : list Z) : met := mkmeta id ns group nsw gw mw nsa fki.
+Inductive crow := R (id size whale : Z) (single : bool) (acct budget : Z) (imeta : option nat) (tags : list Z).
 (* one observation: OK1 = kept with SF 1 *)
 Inductive obs1 := OK1 (id qt : Z) | Ob (id : Z) (kept : bool) (sf : Q) (qt : Z).
 Definition obs_tuple (o : obs1) : Z * bool * Q * Z :=
   match o with OK1 id qt => (id, true, 1%Q, qt) | Ob id k sf qt => (id, k, sf, qt) end.
-Definition row_of (ms : list met) (r : crow) : row :=
+(* missingMetricMeta, with the weights the storage gives its namespace/group *)
+Definition missing_met (nsw gw : Z) : met := mkmeta 0 (-6) (-5) nsw gw 1 false [].
+Definition row_of (has_storage : bool) (ms : list met) (storage : list nat) (miss : met) (r : crow) : row :=
   match r with
-  | R id size whale single mi tags =>
-    match nth mi ms (M 0 0 0 0 0 0 0 false []) with
-    | M mid budget ns group nsw gw mw nsa fki => mkrow id size whale mid budget ns group nsw gw mw nsa single fki tags
-    end
+  | R id size whale single acct budget imeta tags =>
+    resolved_row has_storage (map (fun i => nth i ms miss) storage) miss id size whale acct budget single
+      (match imeta with Some i => nth_error ms i | None => None end) tags
   end.
 
 (* CQuota: one call of the aggregator's calcHostMetricBudgets (quota-mode sampler, SampleKeys off, real
    roundSampleFactor with an unseeded rng): rows = (metric, host) reports, obs = (row id, budget handed back, 0 = none) *)
 Inductive case :=
-| CRun (c : cfg) (budget : Z) (ms : list met) (rows : list crow) (m : mode) (perms : list (list Z)) (obs : list obs1)
-| CQuota (nss groups : bool) (budget : Z) (ms : list met) (rows : list crow) (obs : list (Z * Z)).
+| CRun (c : cfg) (budget : Z) (has_storage : bool) (ms : list met) (storage : list nat) (rows : list crow)
+       (m : mode) (perms : list (list Z)) (obs : list obs1)
+| CQuota (nss groups : bool) (budget : Z) (miss_nsw miss_gw : Z) (ms : list met) (rows : list crow) (obs : list (Z * Z)).
 
 Fixpoint nodupb (l : list Z) : bool :=
   match l with [] => true | x :: t => negb (existsb (Z.eqb x) t) && nodupb t end.
@@ -81,7 +86,7 @@ Definition model_outs (c : cfg) (budget : Z) (rows : list row) (m : mode) (perms
   | MRng rd sd => run_all c (ord_of perms) (sel_random (selu_of sd)) rf_random budget rows rd
   end.
 
-(* all up/down outcomes of up to 7 roundSampleFactor calls: draw 0 rounds up (when there is a fraction), draw 1 down *)
+(* all up/down outcomes of up to 10 roundSampleFactor calls (the generator's hierarchies need at most 10): draw 0 rounds up (when there is a fraction), draw 1 down *)
 Fixpoint draw_lists (n : nat) : list (list Q) :=
   match n with
   | O => [[]]
@@ -105,15 +110,15 @@ Definition quota_matches (rows : list row) (outs : list out) (ob : Z * Z) : bool
 
 Definition ok_variant (f : bool) (cs : case) : bool :=
   match cs with
-  | CQuota nss groups budget ms crows obs =>
-    let rows := map (row_of ms) crows in
+  | CQuota nss groups budget mnsw mgw ms crows obs =>
+    let rows := map (row_of true ms (seq 0 (length ms)) (missing_met mnsw mgw)) crows in
     let c := mkcfg false false false false nss groups false true f in
     (length obs =? length rows)%nat && nodupb (map fst obs) &&
     existsb (fun dr =>
       let outs := run_all c (fun _ l => l) sel_det rf_random budget rows dr in
-      (length outs =? length obs)%nat && forallb (quota_matches rows outs) obs) (draw_lists 7)
-  | CRun c budget ms crows m perms obs0 =>
-    let rows := map (row_of ms) crows in
+      (length outs =? length obs)%nat && forallb (quota_matches rows outs) obs) (draw_lists 10)
+  | CRun c budget has_storage ms storage crows m perms obs0 =>
+    let rows := map (row_of has_storage ms storage (missing_met 0 0)) crows in
     let obs := map obs_tuple obs0 in
     let outs := model_outs (with_fix c f) budget rows m perms in
     (length outs =? length obs)%nat && (length obs =? length rows)%nat &&
@@ -121,6 +126,10 @@ Definition ok_variant (f : bool) (cs : case) : bool :=
   end.
 
 (* dual model: the code as it is (c_fix = false) or with finding F-C05 repaired *)
-Definition ok (cs : case) : bool := ok_variant false cs || ok_variant true cs.
+Definition ok (cs : case) : bool :=
+  match cs with
+  | CQuota _ _ _ _ _ _ _ _ => ok_variant false cs   (* sampleQuota has no repaired variant *)
+  | _ => ok_variant false cs || ok_variant true cs
+  end.
 
 Definition mism := mismatches ok.
